@@ -598,7 +598,7 @@ func ProcessRedTracesIngest(myid int64) {
 		}
 
 		redMetrics := structs.RedMetrics{
-			Rate:      float64(spanCnt) / float64(60),
+			Rate:      float64(spanCnt) / float64(300), // requests per second over the 5 minute window queried above
 			ErrorRate: (float64(errSpanCnt) / float64(spanCnt)) * 100,
 		}
 
